@@ -1,7 +1,7 @@
 //! Operation language (text form shared with the Lean driver).
 
 #[derive(Clone, Copy, Debug)]
-pub struct K(pub u8, pub u32);
+pub struct K(pub u16, pub u32);
 #[derive(Clone, Copy, Debug)]
 pub struct V(pub u32, pub i32);
 
